@@ -532,6 +532,13 @@ class _State:
             out = self.exec_block(s.finalbody, dict(out) if out is not None else dict(hstart))
         return out
 
+    def s_Match(self, s, env):
+        self.ev(s.subject, env)
+        out = env
+        for case in s.cases:
+            out = self.join_env(out, self.exec_block(case.body, dict(env)))
+        return out
+
     def s_With(self, s, env):
         env = dict(env)
         for item in s.items:
